@@ -43,6 +43,10 @@ def run(pid, tier, seed, replay=None):
     mc = []
     if replay is None:
         scs = scenarios(pid, tier, seed)
+        for cfg in {"C05": ["MC_Spawn_1.cfg"], "C07": ["MC_Spawn_1.cfg", "MC_Spawn_2a.cfg"], "C08": ["MC_Spawn_2a.cfg"]}.get(pid, []):
+            r = tlc_mc("MCSpawn.tla", cfg, "%s_%s" % (pid, cfg[:-4]), workers=8)
+            mc.append({k: r[k] for k in ("cfg", "states", "distinct", "ok", "error", "wall_s")})
+            log("[mc] %s: %d distinct states, ok=%s (%.1fs)" % (cfg, r["distinct"], r["ok"], r["wall_s"]))
     else:
         scs = [json.load(open(replay))["scenario"]]
     by_id = {s["id"]: s for s in scs}
@@ -104,6 +108,7 @@ def run(pid, tier, seed, replay=None):
         # every stage of a pipeline, under every terminator (incl. capture()'s stderr pipe)
         from . import api_scen, c_api
         pscs = api_scen.fam_pipelines(seed, tier == "thorough")[::(1 if tier == "thorough" else 2)]
+        pscs += api_scen.fam_race(seed, tier == "thorough")
         presults, pstates, pblocks, pnote = c_api.run_api(pid, tier, seed, pscs, "C08pl")
         pnew, pknown, pothers, _, _ = c_api.classify(pid, pscs, presults, pblocks, "C08_", "api")
         new.extend(pnew)
